@@ -10,6 +10,14 @@
 //       propagator step function, own validity predicate, own bounds and goal distance).  TLC
 //       judges the reports against specs/control/ControlPathContract.tla.
 //
+//   control c20one <job json>
+//       C20 for control planners: ONE run in this fresh process (RNG::setSeed first, evaluation-count
+//       termination), complete outcome printed as bit patterns (tools/checks/c20_control.py).
+//   control c03ctl <jobs.ndjson> <out.ndjson> <shard> <nshards> [skip]
+//       C03 for control planners: life-cycle histories (SetPdef / NewQuery / Solve(k) / Clear / ClearQuery /
+//       GetPlannerData / Setup / Destroy) executed on a control planner; judged by
+//       specs/control/ControlLifecycleTrace.tla (tools/checks/c03_control.py).
+//
 // A line of runs.txt:
 //   run planner system layout obstMask startCell goalCell thr minD maxD stepMicro dcs budget seed
 // planner: RRT RRTi SST EST KPIECE1 PDST SyclopRRT SyclopEST      system: point car dint
@@ -24,6 +32,7 @@
 #include <ompl/base/spaces/RealVectorStateSpace.h>
 #include <ompl/base/spaces/SE2StateSpace.h>
 #include <ompl/control/PathControl.h>
+#include <ompl/control/PlannerData.h>
 #include <ompl/control/SimpleDirectedControlSampler.h>
 #include <ompl/control/SpaceInformation.h>
 #include <ompl/control/StatePropagator.h>
@@ -39,6 +48,7 @@
 #include <ompl/util/Console.h>
 #include <ompl/util/RandomNumbers.h>
 
+#include <array>
 #include <cmath>
 #include <set>
 #include <sys/time.h>
@@ -575,7 +585,7 @@ namespace plan
     }
 
     // the oracle: facts about one path, computed without the library's propagation / validity code
-    static json examinePath(const System &sys, const Map &map, const RunSpec &rs, double stepSize, const double *start,
+    static json examinePath(const System &sys, const Map &map, int minD, int maxD, double stepSize, const double *start,
                             double gx, double gy, double thr, oc::PathControl &path, json &metrics)
     {
         const auto &states = path.getStates();
@@ -635,7 +645,7 @@ namespace plan
             }
             if (k == 0)
                 ++zeroDur;
-            if (k < rs.minD || k > rs.maxD)
+            if (k < minD || k > maxD)
                 dursInRange = false;
             totalSteps += k;
             double x[4];
@@ -684,41 +694,73 @@ namespace plan
         return p;
     }
 
-    static json runOne(const RunSpec &rs)
+    static const char *statusName(ob::PlannerStatus status)
     {
-        static const System systems[3] = {makeSystem("point"), makeSystem("car"), makeSystem("dint")};
-        const System &sys = rs.system == "point" ? systems[0] : rs.system == "car" ? systems[1] : systems[2];
-        if (sys.name != rs.system)
+        switch ((ob::PlannerStatus::StatusType)status)
         {
-            fprintf(stderr, "unknown system %s\n", rs.system.c_str());
-            exit(3);
+            case ob::PlannerStatus::EXACT_SOLUTION: return "EXACT_SOLUTION";
+            case ob::PlannerStatus::APPROXIMATE_SOLUTION: return "APPROXIMATE_SOLUTION";
+            case ob::PlannerStatus::TIMEOUT: return "TIMEOUT";
+            case ob::PlannerStatus::INVALID_START: return "INVALID_START";
+            case ob::PlannerStatus::INVALID_GOAL: return "INVALID_GOAL";
+            case ob::PlannerStatus::UNRECOGNIZED_GOAL_TYPE: return "UNRECOGNIZED_GOAL_TYPE";
+            case ob::PlannerStatus::CRASH: return "CRASH";
+            case ob::PlannerStatus::ABORT: return "ABORT";
+            case ob::PlannerStatus::INFEASIBLE: return "INFEASIBLE";
+            default: return "UNKNOWN";
         }
-        const Map map{rs.obst};
-        const double stepSize = (double)rs.stepMicro * 1e-6;
-        const double thr = rs.thr == "tiny" ? 1e-4 : rs.thr == "huge" ? 8.0 : 0.45;
-        const double gx = (rs.goalCell % W) + 0.5, gy = (rs.goalCell / W) + 0.5;
-        double start[4] = {(rs.startCell % W) + 0.5, (rs.startCell / W) + 0.5, 0.0, 0.0};
-        double goalState[4] = {gx, gy, 0.0, 0.0};
+    }
 
-        ompl::RNG::setSeed((std::uint_fast32_t)rs.seed);   // before any RNG of this run exists
-
-        json ev{{"e", "SolveReport"}, {"run", rs.run}, {"spec", rs.text}, {"planner", rs.planner}, {"system", rs.system},
-                {"layout", rs.layout}, {"W", W}, {"H", H}, {"startCell", rs.startCell}, {"goalCell", rs.goalCell},
-                {"thr", rs.thr}, {"thrMicro", micro(thr)}, {"minD", rs.minD}, {"maxD", rs.maxD},
-                {"stepMicro", rs.stepMicro}, {"dcs", rs.dcs}, {"budget", rs.budget}, {"seed", rs.seed}};
-        json obst = json::array();
-        for (int c = 0; c < W * H; ++c)
-            if (!map.cellFree(c))
-                obst.push_back(c);
-        ev["obst"] = obst;
-        ev["startValid"] = ownValid(sys, map, start);
-        ev["goalValid"] = ownValid(sys, map, goalState);
-
-        AllocCounter *counter = nullptr;
-        json metrics = json::object();
+    // control space that counts allocControl / freeControl (recorded only)
+    class CountingControls : public oc::RealVectorControlSpace
+    {
+    public:
+        CountingControls(const ob::StateSpacePtr &space, unsigned int dim) : oc::RealVectorControlSpace(space, dim)
         {
-            // ---- state space
-            ob::StateSpacePtr space;
+        }
+        oc::Control *allocControl() const override
+        {
+            ++allocs;
+            return oc::RealVectorControlSpace::allocControl();
+        }
+        void freeControl(oc::Control *c) const override
+        {
+            ++frees;
+            oc::RealVectorControlSpace::freeControl(c);
+        }
+        mutable long allocs{0}, frees{0};
+    };
+
+    // the planning laboratory: one system on one map (state space, control space, space information with
+    // the harness's validity predicate and step function), shared by the C02 / C20 / C03 modes
+    struct Lab
+    {
+        const System &sys;
+        Map map;
+        double stepSize;
+        ob::StateSpacePtr space;
+        std::shared_ptr<CountingControls> cspace;
+        oc::SpaceInformationPtr si;
+        AllocCounter *counter{nullptr};
+        long validCalls{0}, propCalls{0};
+        bool hashing{false};
+        unsigned long long vhash{1469598103934665603ULL};   // FNV-1a over the bits of every state handed to isValid
+
+        static const System &systemByName(const std::string &name)
+        {
+            static const System systems[3] = {makeSystem("point"), makeSystem("car"), makeSystem("dint")};
+            const System &s = name == "point" ? systems[0] : name == "car" ? systems[1] : systems[2];
+            if (s.name != name)
+            {
+                fprintf(stderr, "unknown system %s\n", name.c_str());
+                exit(3);
+            }
+            return s;
+        }
+        Lab(const Lab &) = delete;
+        Lab(const std::string &system, unsigned obst, long stepMicro, int minD, int maxD, int dcs)
+          : sys(systemByName(system)), map{obst}, stepSize((double)stepMicro * 1e-6)
+        {
             if (sys.name == "car")
             {
                 auto s = std::make_shared<Counting<ob::SE2StateSpace>>();
@@ -747,8 +789,7 @@ namespace plan
                 counter = &s->counter;
                 space = s;
             }
-            // ---- control space
-            auto cspace = std::make_shared<oc::RealVectorControlSpace>(space, 2);
+            cspace = std::make_shared<CountingControls>(space, 2);
             ob::RealVectorBounds cb(2);
             for (int k = 0; k < 2; ++k)
             {
@@ -756,82 +797,95 @@ namespace plan
                 cb.setHigh(k, sys.uhigh[k]);
             }
             cspace->setBounds(cb);
-            auto si = std::make_shared<oc::SpaceInformation>(space, cspace);
-            si->setMinMaxControlDuration(rs.minD, rs.maxD);
+            si = std::make_shared<oc::SpaceInformation>(space, cspace);
+            si->setMinMaxControlDuration(minD, maxD);
             si->setPropagationStepSize(stepSize);
-            const System *sp = &sys;
-            Map mcopy = map;
-            long validCalls = 0, propCalls = 0;
-            si->setStateValidityChecker([sp, mcopy, &validCalls](const ob::State *s) {
+            si->setStateValidityChecker([this](const ob::State *s) {
                 ++validCalls;
-                double x[4];
-                toVec(*sp, s, x);
-                return ownValid(*sp, mcopy, x);
+                double x[4] = {0, 0, 0, 0};
+                toVec(sys, s, x);
+                if (hashing)
+                    for (int i = 0; i < sys.dim; ++i)
+                    {
+                        unsigned long long u;
+                        memcpy(&u, &x[i], 8);
+                        vhash = (vhash ^ u) * 1099511628211ULL;
+                    }
+                return ownValid(sys, map, x);
             });
-            si->setStatePropagator([sp, &propCalls](const ob::State *s, const oc::Control *c, const double duration, ob::State *r) {
+            si->setStatePropagator([this](const ob::State *s, const oc::Control *c, const double duration, ob::State *r) {
                 ++propCalls;
                 double x[4], out[4];
-                toVec(*sp, s, x);
-                sp->step(x, c->as<oc::RealVectorControlSpace::ControlType>()->values, duration, out);
-                fromVec(*sp, out, r);
+                toVec(sys, s, x);
+                sys.step(x, c->as<oc::RealVectorControlSpace::ControlType>()->values, duration, out);
+                fromVec(sys, out, r);
             });
-            if (rs.dcs > 1)
+            if (dcs > 1)
             {
-                unsigned int k = (unsigned int)rs.dcs;
+                unsigned int k = (unsigned int)dcs;
                 si->setDirectedControlSamplerAllocator([k](const oc::SpaceInformation *s) {
                     return std::make_shared<oc::SimpleDirectedControlSampler>(s, k);
                 });
             }
             si->setup();
+        }
 
-            // ---- problem
+        ob::ProblemDefinitionPtr makePdef(const double *start, double gx, double gy, double thr)
+        {
             auto pdef = std::make_shared<ob::ProblemDefinition>(si);
-            {
-                ob::State *st = si->allocState();
-                fromVec(sys, start, st);
-                pdef->addStartState(st);
-                si->freeState(st);
-            }
+            setQuery(pdef, start, gx, gy, thr);
+            return pdef;
+        }
+        void setQuery(const ob::ProblemDefinitionPtr &pdef, const double *start, double gx, double gy, double thr)
+        {
+            pdef->clearSolutionPaths();
+            pdef->clearStartStates();
+            ob::State *st = si->allocState();
+            fromVec(sys, start, st);
+            pdef->addStartState(st);
+            si->freeState(st);
             pdef->setGoal(std::make_shared<DiscGoal>(si, &sys, gx, gy, thr));
+        }
 
-            // ---- planner
+        ob::PlannerPtr makePlanner(const std::string &name)
+        {
             ob::PlannerPtr planner;
             auto proj = std::make_shared<XYProjection>(space, &sys);
             ob::RealVectorBounds db(2);
             db.setLow(0.0);
             db.setHigh(0, (double)W);
             db.setHigh(1, (double)H);
-            if (rs.planner == "RRT" || rs.planner == "RRTi")
+            if (name == "RRT" || name == "RRTi")
             {
                 auto p = std::make_shared<oc::RRT>(si);
-                p->setIntermediateStates(rs.planner == "RRTi");
+                p->setIntermediateStates(name == "RRTi");
                 planner = p;
             }
-            else if (rs.planner == "SST")
+            else if (name == "SST")
                 planner = std::make_shared<oc::SST>(si);
-            else if (rs.planner == "EST")
+            else if (name == "EST")
             {
                 auto p = std::make_shared<oc::EST>(si);
                 p->setProjectionEvaluator(proj);
                 planner = p;
             }
-            else if (rs.planner == "KPIECE1")
+            else if (name == "KPIECE1")
             {
                 auto p = std::make_shared<oc::KPIECE1>(si);
                 p->setProjectionEvaluator(proj);
                 planner = p;
             }
-            else if (rs.planner == "PDST")
+            else if (name == "PDST")
             {
                 auto p = std::make_shared<oc::PDST>(si);
                 p->setProjectionEvaluator(proj);
                 planner = p;
             }
-            else if (rs.planner == "SyclopRRT" || rs.planner == "SyclopEST")
+            else if (name == "SyclopRRT" || name == "SyclopEST")
             {
                 auto decomp = std::make_shared<XYDecomposition>(db, &sys);
                 std::shared_ptr<oc::Syclop> p;
-                if (rs.planner == "SyclopRRT")
+                if (name == "SyclopRRT")
                     p = std::make_shared<oc::SyclopRRT>(si, decomp);
                 else
                     p = std::make_shared<oc::SyclopEST>(si, decomp);
@@ -842,9 +896,78 @@ namespace plan
             }
             else
             {
-                fprintf(stderr, "unknown planner %s\n", rs.planner.c_str());
+                fprintf(stderr, "unknown planner %s\n", name.c_str());
                 exit(3);
             }
+            return planner;
+        }
+    };
+
+    static double thresholdOf(const std::string &thr)
+    {
+        return thr == "tiny" ? 1e-4 : thr == "huge" ? 8.0 : 0.45;
+    }
+
+    // oracle facts of one solution held by a problem definition
+    static json solutionFacts(Lab &lab, int minD, int maxD, const double *start, double gx, double gy, double thr,
+                              const ob::PlannerSolution &sol, json &metrics, long &libCheckDisagree)
+    {
+        auto *pc = dynamic_cast<oc::PathControl *>(sol.path_.get());
+        json p;
+        if (pc == nullptr)
+        {
+            // not a control path: nothing can be replayed
+            p = json{{"nStates", 0}, {"nControls", 0}, {"nDurations", 0}, {"startIsAStart", false},
+                     {"replayMatches", false}, {"allStepsValid", false}, {"controlsInBounds", false},
+                     {"durationsWholeSteps", false}, {"lastInGoal", false}, {"lastDist", 2000000000L},
+                     {"cells", json::array()}, {"cellsTruncated", true}, {"dursInRange", false},
+                     {"zeroDurations", 0}, {"steps", 0}, {"replayErrNano", 0}, {"libCheck", false}};
+        }
+        else
+        {
+            p = examinePath(lab.sys, lab.map, minD, maxD, lab.stepSize, start, gx, gy, thr, *pc, metrics);
+            bool lib = pc->check();   // the library's own definition, recorded for comparison only
+            p["libCheck"] = lib;
+            bool oracle = p["startIsAStart"].get<bool>() && p["replayMatches"].get<bool>() &&
+                          p["allStepsValid"].get<bool>() && p["durationsWholeSteps"].get<bool>();
+            if (lib != oracle)
+                ++libCheckDisagree;
+        }
+        p["approx"] = sol.approximate_;
+        p["diff"] = micro(sol.difference_);
+        return p;
+    }
+
+    static json obstList(const Map &map)
+    {
+        json obst = json::array();
+        for (int c = 0; c < W * H; ++c)
+            if (!map.cellFree(c))
+                obst.push_back(c);
+        return obst;
+    }
+
+    static json runOne(const RunSpec &rs)
+    {
+        const double thr = thresholdOf(rs.thr);
+        const double gx = (rs.goalCell % W) + 0.5, gy = (rs.goalCell / W) + 0.5;
+        double start[4] = {(rs.startCell % W) + 0.5, (rs.startCell / W) + 0.5, 0.0, 0.0};
+        double goalState[4] = {gx, gy, 0.0, 0.0};
+
+        ompl::RNG::setSeed((std::uint_fast32_t)rs.seed);   // before any RNG of this run exists
+
+        json ev{{"e", "SolveReport"}, {"run", rs.run}, {"spec", rs.text}, {"planner", rs.planner}, {"system", rs.system},
+                {"layout", rs.layout}, {"W", W}, {"H", H}, {"startCell", rs.startCell}, {"goalCell", rs.goalCell},
+                {"thr", rs.thr}, {"thrMicro", micro(thr)}, {"minD", rs.minD}, {"maxD", rs.maxD},
+                {"stepMicro", rs.stepMicro}, {"dcs", rs.dcs}, {"budget", rs.budget}, {"seed", rs.seed}};
+        json metrics = json::object();
+        {
+            Lab lab(rs.system, rs.obst, rs.stepMicro, rs.minD, rs.maxD, rs.dcs);
+            ev["obst"] = obstList(lab.map);
+            ev["startValid"] = ownValid(lab.sys, lab.map, start);
+            ev["goalValid"] = ownValid(lab.sys, lab.map, goalState);
+            auto pdef = lab.makePdef(start, gx, gy, thr);
+            ob::PlannerPtr planner = lab.makePlanner(rs.planner);
             planner->setProblemDefinition(pdef);
             planner->setup();
 
@@ -853,72 +976,47 @@ namespace plan
             ob::PlannerTerminationCondition ptc([&evals, budget] { return ++evals > budget; });
             ob::PlannerStatus status = planner->solve(ptc);
 
-            const char *sname = "UNKNOWN";
-            switch ((ob::PlannerStatus::StatusType)status)
-            {
-                case ob::PlannerStatus::EXACT_SOLUTION: sname = "EXACT_SOLUTION"; break;
-                case ob::PlannerStatus::APPROXIMATE_SOLUTION: sname = "APPROXIMATE_SOLUTION"; break;
-                case ob::PlannerStatus::TIMEOUT: sname = "TIMEOUT"; break;
-                case ob::PlannerStatus::INVALID_START: sname = "INVALID_START"; break;
-                case ob::PlannerStatus::INVALID_GOAL: sname = "INVALID_GOAL"; break;
-                case ob::PlannerStatus::UNRECOGNIZED_GOAL_TYPE: sname = "UNRECOGNIZED_GOAL_TYPE"; break;
-                case ob::PlannerStatus::CRASH: sname = "CRASH"; break;
-                case ob::PlannerStatus::ABORT: sname = "ABORT"; break;
-                case ob::PlannerStatus::INFEASIBLE: sname = "INFEASIBLE"; break;
-                default: sname = "UNKNOWN"; break;
-            }
-            ev["status"] = sname;
+            ev["status"] = statusName(status);
             ev["statusCode"] = (int)(ob::PlannerStatus::StatusType)status;
             ev["nAdded"] = (long)pdef->getSolutionCount();
             ev["evals"] = vt::tlcInt(evals);
             json paths = json::array();
             long libCheckDisagree = 0;
             for (const auto &sol : pdef->getSolutions())
-            {
-                auto *pc = dynamic_cast<oc::PathControl *>(sol.path_.get());
-                json p;
-                if (pc == nullptr)
-                {
-                    // not a control path: nothing can be replayed
-                    p = json{{"nStates", 0}, {"nControls", 0}, {"nDurations", 0}, {"startIsAStart", false},
-                             {"replayMatches", false}, {"allStepsValid", false}, {"controlsInBounds", false},
-                             {"durationsWholeSteps", false}, {"lastInGoal", false}, {"lastDist", 2000000000L},
-                             {"cells", json::array()}, {"cellsTruncated", true}, {"dursInRange", false},
-                             {"zeroDurations", 0}, {"steps", 0}, {"replayErrNano", 0}, {"libCheck", false}};
-                }
-                else
-                {
-                    p = examinePath(sys, map, rs, stepSize, start, gx, gy, thr, *pc, metrics);
-                    bool lib = pc->check();   // the library's own definition, recorded for comparison only
-                    p["libCheck"] = lib;
-                    bool oracle = p["startIsAStart"].get<bool>() && p["replayMatches"].get<bool>() &&
-                                  p["allStepsValid"].get<bool>() && p["durationsWholeSteps"].get<bool>();
-                    if (lib != oracle)
-                        ++libCheckDisagree;
-                }
-                p["approx"] = sol.approximate_;
-                p["diff"] = micro(sol.difference_);
-                paths.push_back(p);
-            }
+                paths.push_back(solutionFacts(lab, rs.minD, rs.maxD, start, gx, gy, thr, sol, metrics, libCheckDisagree));
             ev["paths"] = paths;
             ev["hasExact"] = pdef->hasExactSolution();
             ev["hasApprox"] = pdef->hasApproximateSolution();
             ev["libCheckDisagree"] = libCheckDisagree;
-            ev["validCalls"] = vt::tlcInt(validCalls);
-            ev["propCalls"] = vt::tlcInt(propCalls);
+            ev["validCalls"] = vt::tlcInt(lab.validCalls);
+            ev["propCalls"] = vt::tlcInt(lab.propCalls);
             pdef->clearSolutionPaths();
             planner->clear();
             planner.reset();
             pdef.reset();
-            ev["statesLeakedBeforeTeardown"] = counter->net();
+            ev["statesLeakedBeforeTeardown"] = lab.counter->net();
         }
         return ev;
     }
 
     // per-run watchdog on CPU time (never wall clock: the machine may be arbitrarily loaded)
     static const int RUN_CPU_LIMIT_S = 300;
+    static bool g_hangProtocol = false;   // true: emit a Hang event and exit 75 (tools/planrun.py resumes behind the run)
+    static json g_current;                // what is running (for the Hang event)
     static void onCpuLimit(int)
     {
+        if (g_hangProtocol)
+        {
+            json ev = g_current.is_object() ? g_current : json::object();
+            ev["e"] = "Hang";
+            if (vt::Trace::current())
+            {
+                vt::Trace::current()->emit(ev);
+                vt::Trace::current()->flush();
+            }
+            std::cout << "HANG " << ev.dump() << std::endl;
+            _exit(75);
+        }
         vt::crashEvent("watchdog: one planner run used more than 300 s of CPU under an evaluation budget");
         _exit(71);
     }
@@ -972,6 +1070,317 @@ namespace plan
         std::cout << "RECORDED " << json{{"runs", n}, {"status", st}}.dump() << std::endl;
         return 0;
     }
+
+    // ================================================================== C20: one run in a fresh process
+    // job: {planner, system, obst (mask), start, goal, thr, minD, maxD, stepMicro, dcs, budget, seed, solves}
+    static unsigned long long fnv(unsigned long long h, double v)
+    {
+        unsigned long long u;
+        memcpy(&u, &v, 8);
+        return (h ^ u) * 1099511628211ULL;
+    }
+    static int c20one(const std::string &jobText)
+    {
+        json job = json::parse(jobText);
+        unsigned seed = job["seed"];
+        ompl::RNG::setSeed(seed);   // FIRST: before any random generator of this process exists
+        bool seedTookEffect = ompl::RNG::getSeed() == seed;
+        ompl::msg::setLogLevel(ompl::msg::LOG_NONE);
+        signal(SIGPROF, onCpuLimit);
+        const std::string thrName = job.value("thr", std::string("normal"));
+        const double thr = thresholdOf(thrName);
+        const int startCell = job["start"], goalCell = job["goal"];
+        const double gx = (goalCell % W) + 0.5, gy = (goalCell / W) + 0.5;
+        double start[4] = {(startCell % W) + 0.5, (startCell / W) + 0.5, 0.0, 0.0};
+        Lab lab(job["system"], job["obst"].get<unsigned>(), job["stepMicro"], job["minD"], job["maxD"], job.value("dcs", 1));
+        lab.hashing = true;
+        auto pdef = lab.makePdef(start, gx, gy, thr);
+        ob::PlannerPtr planner = lab.makePlanner(job["planner"]);
+        planner->setProblemDefinition(pdef);
+        std::string fp;
+        char buf[96];
+        armWatchdog(120);
+        int nsolves = job.value("solves", 1);
+        for (int i = 0; i < nsolves; ++i)
+        {
+            long evals = 0;
+            const long budget = job["budget"];
+            ob::PlannerTerminationCondition ptc([&evals, budget] { return ++evals > budget; });
+            ob::PlannerStatus st = planner->solve(ptc);
+            snprintf(buf, sizeof buf, "%s/%ld/", statusName(st), evals);
+            fp += buf;
+        }
+        armWatchdog(0);
+        snprintf(buf, sizeof buf, "q%ld/h%016llx/n%zu", lab.validCalls, lab.vhash, pdef->getSolutionCount());
+        fp += buf;
+        unsigned long long ph = 1469598103934665603ULL;
+        for (auto &sol : pdef->getSolutions())
+        {
+            auto *pc = dynamic_cast<oc::PathControl *>(sol.path_.get());
+            if (pc)
+            {
+                for (auto *st : pc->getStates())
+                {
+                    double x[4] = {0, 0, 0, 0};
+                    toVec(lab.sys, st, x);
+                    for (int c = 0; c < lab.sys.dim; ++c)
+                        ph = fnv(ph, x[c]);
+                }
+                for (auto *c : pc->getControls())
+                    for (int k = 0; k < 2; ++k)
+                        ph = fnv(ph, c->as<oc::RealVectorControlSpace::ControlType>()->values[k]);
+                for (double d : pc->getControlDurations())
+                    ph = fnv(ph, d);
+            }
+            ph = fnv(ph, sol.difference_);
+            ph = (ph ^ (sol.approximate_ ? 3 : 5)) * 1099511628211ULL;
+        }
+        snprintf(buf, sizeof buf, "/p%016llx", ph);
+        fp += buf;
+        std::cout << "OBS " << json{{"val", fp}, {"seedTookEffect", seedTookEffect}}.dump() << std::endl;
+        return 0;
+    }
+
+    // ================================================================== C03: one life-cycle history on one planner
+    // job: {id, planner, system, obst (mask), minD, maxD, stepMicro, dcs, thr, seed, ops: [{a, p?, k?}, ...]}
+    struct Query
+    {
+        int startCell, goalCell;
+        double start[4];
+        double gx, gy;
+    };
+    static long budgetValue(const std::string &k)
+    {
+        if (k == "inf")
+            return 4000;
+        return atol(k.c_str() + 1);   // "k13" -> 13
+    }
+    static const int BOUND_AFTER_K = 24;   // evaluations tolerated after the k-th (same class as single-threaded geometric planners)
+
+    static void runLifecycle(const json &job, vt::Trace &tr)
+    {
+        unsigned seed = job["seed"];
+        ompl::RNG::setSeed(seed);
+        vt::Rng jit(seed * 2654435761u + 7);
+        const std::string plannerName = job["planner"];
+        const int minD = job["minD"], maxD = job["maxD"];
+        const std::string thrName = job.value("thr", std::string("normal"));
+        const double thr = thresholdOf(thrName);
+        Lab lab(job["system"], job["obst"].get<unsigned>(), job["stepMicro"], minD, maxD, job.value("dcs", 1));
+        std::vector<int> freeCells;
+        for (int c = 0; c < W * H; ++c)
+            if (lab.map.cellFree(c))
+                freeCells.push_back(c);
+        auto pickQuery = [&]() {
+            auto cell = [&]() {
+                if (jit.below(12) == 0 || freeCells.empty())
+                    return jit.below(W * H);
+                return freeCells[jit.below((int)freeCells.size())];
+            };
+            Query q;
+            q.startCell = cell();
+            q.goalCell = cell();
+            // the start is jittered inside its cell: distinct queries have distinct start states (staleness oracle);
+            // the goal is the disc around the centre of its cell (goals are regions, never states of the tree)
+            q.start[0] = (q.startCell % W) + 0.5 + (jit.unit() - 0.5) * 0.6;
+            q.start[1] = (q.startCell / W) + 0.5 + (jit.unit() - 0.5) * 0.6;
+            q.start[2] = q.start[3] = 0.0;
+            q.gx = (q.goalCell % W) + 0.5;
+            q.gy = (q.goalCell / W) + 0.5;
+            return q;
+        };
+        std::map<std::string, ob::ProblemDefinitionPtr> pdefs;
+        std::map<std::string, Query> cur;
+        std::vector<Query> past;
+        auto applyQuery = [&](const std::string &p, const Query &q) {
+            auto &pd = pdefs[p];
+            if (!pd)
+                pd = std::make_shared<ob::ProblemDefinition>(lab.si);
+            lab.setQuery(pd, q.start, q.gx, q.gy, thr);
+            cur[p] = q;
+            past.push_back(q);
+        };
+        // how many of these states are the start state of a query other than `now`?
+        auto staleCount = [&](const std::vector<std::array<double, 4>> &pts, const Query &now) {
+            int n = 0;
+            for (auto &pt : pts)
+                for (auto &q : past)
+                {
+                    if (q.start[0] == now.start[0] && q.start[1] == now.start[1])
+                        continue;
+                    if (pt[0] == q.start[0] && pt[1] == q.start[1])
+                    {
+                        ++n;
+                        break;
+                    }
+                }
+            return n;
+        };
+        Query qa = pickQuery(), qb = pickQuery();
+        applyQuery("A", qa);
+        applyQuery("B", qb);
+        const json obst = obstList(lab.map);
+        tr.emit(json{{"e", "Reset"}, {"planner", plannerName}, {"system", lab.sys.name}, {"W", W}, {"H", H}, {"obst", obst},
+                     {"seed", seed}, {"B", BOUND_AFTER_K}, {"job", job.value("id", 0)},
+                     {"qA", json{{"start", qa.startCell}, {"goal", qa.goalCell}}},
+                     {"qB", json{{"start", qb.startCell}, {"goal", qb.goalCell}}}});
+        ob::PlannerPtr planner = lab.makePlanner(plannerName);
+        std::string bound;
+        auto rankOf = [&](const ob::PlannerSolution &s) {
+            return json{{"approx", s.approximate_}, {"diff", micro(s.difference_)}, {"len", micro(s.length_)}};
+        };
+        const json noRank{{"approx", false}, {"diff", 0}, {"len", 0}};
+        json metrics = json::object();
+        for (auto &op : job["ops"])
+        {
+            std::string a = op["a"];
+            json ev{{"e", a}};
+            if (a == "SetPdef")
+            {
+                bound = op["p"];
+                planner->setProblemDefinition(pdefs[bound]);
+                ev["p"] = bound;
+            }
+            else if (a == "NewQuery")
+            {
+                std::string p = op["p"];
+                Query q = pickQuery();
+                applyQuery(p, q);
+                ev["p"] = p;
+                ev["start"] = q.startCell;
+                ev["goal"] = q.goalCell;
+            }
+            else if (a == "Clear")
+                planner->clear();
+            else if (a == "ClearQuery")
+                planner->clearQuery();
+            else if (a == "Setup")
+                planner->setup();
+            else if (a == "Solve")
+            {
+                auto pd = pdefs[bound];
+                const Query &q = cur[bound];
+                const std::string kname = op["k"];
+                const long k = budgetValue(kname);
+                const bool stopOnExact = kname == "inf";
+                long evals = 0;
+                const ob::ProblemDefinition *pdp = pd.get();
+                ob::PlannerTerminationCondition ptc([&evals, k, stopOnExact, pdp] {
+                    long n = ++evals;
+                    if (stopOnExact && pdp->hasExactSolution())
+                        return true;
+                    return n > k;
+                });
+                std::size_t nBefore = pd->getSolutionCount();
+                bool hadTop = nBefore > 0;
+                json topBefore = hadTop ? rankOf(pd->getSolutions()[0]) : noRank;
+                std::set<const ob::Path *> before;
+                for (auto &s : pd->getSolutions())
+                    before.insert(s.path_.get());
+                ob::PlannerStatus st = planner->solve(ptc);
+                double goalState[4] = {q.gx, q.gy, 0.0, 0.0};
+                ev["k"] = kname;
+                ev["kval"] = stopOnExact ? -1 : k;
+                ev["evals"] = vt::tlcInt(evals);
+                ev["planner"] = plannerName;
+                ev["system"] = lab.sys.name;
+                ev["W"] = W;
+                ev["H"] = H;
+                ev["obst"] = obst;
+                ev["startCell"] = q.startCell;
+                ev["goalCell"] = q.goalCell;
+                ev["thr"] = thrName;
+                ev["startValid"] = ownValid(lab.sys, lab.map, q.start);
+                ev["goalValid"] = ownValid(lab.sys, lab.map, goalState);
+                ev["status"] = statusName(st);
+                ev["nBefore"] = (int)nBefore;
+                ev["nAfter"] = (int)pd->getSolutionCount();
+                ev["hasExact"] = pd->hasExactSolution();
+                json sols = json::array();
+                long libCheckDisagree = 0;
+                auto all = pd->getSolutions();
+                for (auto &s : all)
+                {
+                    json f = solutionFacts(lab, minD, maxD, q.start, q.gx, q.gy, thr, s, metrics, libCheckDisagree);
+                    f["added"] = before.count(s.path_.get()) == 0;
+                    std::vector<std::array<double, 4>> pts;
+                    if (auto *pc = dynamic_cast<oc::PathControl *>(s.path_.get()))
+                        for (auto *state : pc->getStates())
+                        {
+                            std::array<double, 4> x{{0, 0, 0, 0}};
+                            toVec(lab.sys, state, x.data());
+                            pts.push_back(x);
+                        }
+                    f["stale"] = staleCount(pts, q);
+                    sols.push_back(f);
+                }
+                ev["sols"] = sols;
+                ev["hadTop"] = hadTop;
+                ev["topBefore"] = topBefore;
+                ev["topAfter"] = all.empty() ? noRank : rankOf(all[0]);
+            }
+            else if (a == "GetPlannerData")
+            {
+                oc::PlannerData data(lab.si);
+                planner->getPlannerData(data);
+                std::vector<std::array<double, 4>> pts;
+                for (unsigned i = 0; i < data.numVertices(); ++i)
+                {
+                    const ob::State *st = data.getVertex(i).getState();
+                    if (!st)
+                        continue;
+                    std::array<double, 4> x{{0, 0, 0, 0}};
+                    toVec(lab.sys, st, x.data());
+                    pts.push_back(x);
+                }
+                ev["nVerts"] = (int)data.numVertices();
+                ev["nEdges"] = (int)data.numEdges();
+                ev["stale"] = bound.empty() ? 0 : staleCount(pts, cur[bound]);
+            }
+            else if (a == "Destroy")
+            {
+                planner.reset();
+                pdefs.clear();
+                ev["live"] = lab.counter->net();
+                ev["badFrees"] = lab.counter->badFrees;
+                ev["allocs"] = vt::tlcInt(lab.counter->allocs);
+                ev["liveControls"] = lab.cspace->allocs - lab.cspace->frees;   // recorded only
+                tr.emit(ev);
+                break;
+            }
+            tr.emit(ev);
+        }
+    }
+
+    // same command-line protocol as `planners c03` (tools/planrun.py drives it): RUN <n> before each job,
+    // RECORDED <n> at the end, exit 75 after a Hang event, resume with [skip]
+    static int lifecycleShard(int argc, char **argv)
+    {
+        auto jobs = vt::readNdjson(argv[2]);
+        int shard = atoi(argv[4]), nshards = atoi(argv[5]);
+        long skip = argc > 6 ? atol(argv[6]) : 0;
+        ompl::msg::setLogLevel(ompl::msg::LOG_NONE);
+        vt::Trace tr(argv[3], skip > 0);
+        g_hangProtocol = true;
+        signal(SIGPROF, onCpuLimit);
+        long n = 0;
+        for (std::size_t i = 0; i < jobs.size(); ++i)
+        {
+            if ((int)(i % nshards) != shard)
+                continue;
+            if (n++ < skip)
+                continue;
+            const json &job = jobs[i];
+            g_current = json{{"planner", job["planner"]}, {"job", job.value("id", 0)}, {"idx", n - 1}};
+            std::cout << "RUN " << (n - 1) << std::endl;
+            armWatchdog(40);
+            runLifecycle(job, tr);
+            armWatchdog(0);
+            tr.flush();
+        }
+        std::cout << "RECORDED " << n << std::endl;
+        return 0;
+    }
 }
 
 int main(int argc, char **argv)
@@ -985,6 +1394,11 @@ int main(int argc, char **argv)
     }
     if (mode == "record" && argc > 3)
         return plan::record(argv[2], argv[3]);
-    fprintf(stderr, "usage: control replay-propagate <cases.ndjson> | control record <out.ndjson> <runs.txt>\n");
+    if (mode == "c20one" && argc > 2)
+        return plan::c20one(argv[2]);
+    if (mode == "c03ctl" && argc >= 6)
+        return plan::lifecycleShard(argc, argv);
+    fprintf(stderr, "usage: control replay-propagate <cases.ndjson> | record <out.ndjson> <runs.txt> | c20one <job json> | "
+                    "c03ctl <jobs.ndjson> <out.ndjson> <shard> <nshards> [skip]\n");
     return 2;
 }
